@@ -64,6 +64,20 @@ def _signature(r, inv):
     return "C08 %s %s" % (inv, r["kind"])
 
 
+_CANON = dict(cp="srv", dp="ntp", da="t0l4", sa="t0l4", pt="empty", ext="none", l4="udp", ul="ok", sz="s48",
+              b0="v4c", ia="ok", org="match", meta="ok", ts="ok", sc="ok")
+
+
+def _scdims(c):
+    """The dimensions in which the SCION datagrams of a case deviate from the canonical datagram (python
+    only sorts cases into classes for sampling)."""
+    res = []
+    for i, g in enumerate(c["rs"]):
+        d = tuple(sorted(k for k, v in _CANON.items() if g.get(k, "na") not in ("na", v)))
+        res.append(d)
+    return (c["auth"], tuple(res))
+
+
 def _select(ctx, cases):
     """Inputs predicted to hang cost ~0.7 s each (confirmation + child restart), calls that run into
     their deadline cost the deadline: a seeded sample of at most `cap` per class of those is replayed."""
@@ -76,17 +90,24 @@ def _select(ctx, cases):
             g = c["rs"][-1]
             f = g["fs"][-1]["t"] if g["fs"] and g["inner"] == "na" else "inner"
             pool[(c["kind"], c["out"], c["site"], f, min(len(g["fs"]), 2))].append(c)
+        elif c["kind"] in ("scsrv", "sccli"):
+            # SCION datagrams: t-wise (ScDev = 2) enumeration; a seeded sample per (outcome, site, deviating
+            # dimensions) class is replayed, every single-dimension deviation among them
+            pool[(c["kind"], c["out"], c["site"], _scdims(c))].append(c)
         elif c["kind"] == "csptpcli" and c["site"] == "read:deadline" and ctx.quick:
             # calls that end at their deadline cost the deadline; classes differ in where the silence starts
             pool[("csptpcli", "deadline", len(c["rs"]), c["rs"][0]["mt"])].append(c)
         else:
             keep.append(c)
     dropped = 0
-    for k in sorted(pool):
+    for k in sorted(pool, key=str):
         xs = pool[k]
         rnd.shuffle(xs)
-        keep += xs[:cap]
-        dropped += max(0, len(xs) - cap)
+        n = cap
+        if k[0] in ("scsrv", "sccli"):
+            n = 1 if ctx.quick else 12
+        keep += xs[:n]
+        dropped += max(0, len(xs) - n)
     return keep, dropped
 
 
